@@ -13,7 +13,8 @@ INF = float('inf')
 class NodeH:
     """what happened to one node (atomic job or nested scheduler as a job)"""
     __slots__ = ('nid', 'spec', 'parent', 'is_sched', 'enters', 'exits',
-                 'cancel_seen', 'cancel_again', 'sd_enter', 'sd_exit',
+                 'cancel_seen', 'cancel_again', 'cancel_req', 'sd_enter',
+                 'sd_exit',
                  'sd_cancel', 'sdrun_begin', 'sdrun_end')
 
     def __init__(self, spec, parent):
@@ -25,6 +26,7 @@ class NodeH:
         self.exits = []                 # (seq, t, kind) kind: ret|exc|cancelled
         self.cancel_seen = []           # (seq, t)
         self.cancel_again = []
+        self.cancel_req = []            # (seq, t) task.cancel() on its task
         self.sd_enter = []
         self.sd_exit = []
         self.sd_cancel = []
@@ -81,6 +83,8 @@ class History:
                 h.cancel_seen.append((seq, t))
             elif kind == 'cancel_again':
                 h.cancel_again.append((seq, t))
+            elif kind == 'cancel_req':
+                h.cancel_req.append((seq, t))
             elif kind == 'sd_enter':
                 h.sd_enter.append((seq, t))
             elif kind == 'sd_exit':
